@@ -1,14 +1,24 @@
-(** Property C17 -- save/restore cursor.
+(** Property C17 -- save/restore cursor round-trips the full context, per screen.
     Only pinned statements, closed by [exact], with their assumptions printed. *)
-From Avt Require Import Oracles.Step Proofs.TermEasy.
+From Avt Require Import Oracles.Step Proofs.Inv Proofs.TermEasy Proofs.StepC17.
 
-(** the save spellings store exactly (visible column, row, pen, origin, auto-wrap) in the active screen's context and change nothing else *)
+(** The per-screen saved-context bookkeeping (executable statement holds_C17) is a theorem for every control function from every state satisfying the invariant: the four save spellings store exactly the five components on the active screen and nothing else changes; the restore spellings re-establish exactly those, inside the screen; ?1049h saves on the screen that was active; ?1049l restores the primary's context (exactly, when the size is unchanged; inside the screen always); DECSTR re-initialises only the active screen's context; RIS both; every other function leaves both contexts and the active screen alone. *)
+Theorem C17_statement : forall p p' t f t', TInv t -> execute t f = Ok t' -> holds_C17 (mkVt p t) f (mkVt p' t') = true.
+Proof. exact C17_holds. Qed.
+Check C17_statement : forall p p' t f t', TInv t -> execute t f = Ok t' -> holds_C17 (mkVt p t) f (mkVt p' t') = true.
+Print Assumptions C17_statement.
+
+(** a resize clamps the active screen's saved position into the new screen and leaves the other screen's context alone *)
+Theorem C17_resize : forall p p' t c r t', TInv t -> 1 <= c -> 1 <= r -> term_resize t c r = Ok t' -> holds_C17_resize (mkVt p t) (mkVt p' t') = true.
+Proof. exact C17_resize_holds. Qed.
+Check C17_resize : forall p p' t c r t', TInv t -> 1 <= c -> 1 <= r -> term_resize t c r = Ok t' -> holds_C17_resize (mkVt p t) (mkVt p' t') = true.
+Print Assumptions C17_resize.
+
 Theorem C17_save : forall t f, match f with Decsc | Scosc | Decset [SaveCursor] => True | _ => False end -> execute t f = Ok (t <| sctx := spec_saved_now t |>).
 Proof. exact exec_save. Qed.
 Check C17_save : forall t f, match f with Decsc | Scosc | Decset [SaveCursor] => True | _ => False end -> execute t f = Ok (t <| sctx := spec_saved_now t |>).
 Print Assumptions C17_save.
 
-(** the restore spellings re-establish exactly the five saved components, clear the wrap-pending flag and change nothing else *)
 Theorem C17_restore : forall t f, match f with Decrc | Scorc | Decrst [SaveCursor] => True | _ => False end -> execute t f = Ok (spec_restore t).
 Proof. exact exec_restore. Qed.
 Check C17_restore : forall t f, match f with Decrc | Scorc | Decrst [SaveCursor] => True | _ => False end -> execute t f = Ok (spec_restore t).
